@@ -177,6 +177,16 @@ def run_multiple(chk, want):
                   model=rng.choice(['sca', 'dolgo', 'asjp']))
         calls = [(rng.choice(REFINE if want == 'C04' else REFINE[:4]),
                   dict(gap_weight=rng.choice([0.0, 0.5, 1.0]))) for _ in range(rng.randrange(1 if want == 'C11' else 0, 5))]
+        if rng.random() < 0.35:
+            # longer sessions on one object: the same gap weight several times, the alignment mode of the refinement varied, and the
+            # scorer switched in between (swap_check(score_mode=...) sets it; the library scorer exists after lib_align)
+            gw = rng.choice([0.5, 1.0, 1])
+            calls = []
+            for _k in range(rng.randrange(2, 5)):
+                calls.append((rng.choice(REFINE[:4]), dict(gap_weight=gw, mode=rng.choice(['global', 'overlap', 'dialign']))))
+                if rng.random() < 0.6:
+                    calls.append(('swap_check', dict(score_mode=rng.choice(['library', 'classes']) if method == 'library' else 'classes')))
+            chk.hist['refinement session with scorer switches between the calls'] += 1
         log = []
         with Recorder() as rec:
             try:
@@ -190,16 +200,16 @@ def run_multiple(chk, want):
                 for name, ckw in calls:
                     if e:
                         break
-                    sop_before = {gw: msa.sum_of_pairs(gap_weight=gw) for gw in (ckw['gap_weight'],)}
+                    sop_before = {gw: msa.sum_of_pairs(gap_weight=gw) for gw in (ckw.get('gap_weight', 0.0),)}
                     before = [list(r) for r in msa.alm_matrix]
                     n_it = len(rec.iters)
                     if name == 'swap_check':
-                        msa.swap_check()
+                        msa.swap_check(**{k: v for k, v in ckw.items() if k == 'score_mode'})
                     elif name == 'iterate_clusters':
                         getattr(msa, name)(rng.choice([0.3, 0.5, 0.7, 0.9, 1.0]), **ckw)
                     else:
                         getattr(msa, name)(**ckw)
-                    log.append(name)
+                    log.append(name if not set(ckw) - {'gap_weight'} else '%s(%s)' % (name, ', '.join('%s=%r' % kv for kv in sorted(ckw.items()))))
                     e = oracle_msa(msa, toks) if want == 'C04' else None
                     if not e and name != 'swap_check' and want == 'C11':   # the score clause is C11's statement, not C04's
                         gw = ckw['gap_weight']
@@ -212,7 +222,7 @@ def run_multiple(chk, want):
             except Exception as ex:  # noqa
                 e = 'raised %s: %s' % (type(ex).__name__, str(ex)[:120])
         chk.count((want, tuple(seqs), method, tuple(sorted(kw.items())), tuple(log)), len(seqs) >= 3 and any(len(set(len(r) for r in [msa.alm_matrix[0]])) for _ in [0]) if not e else True,
-                  branch=['method:' + method, 'mode:' + kw['mode'], 'tree:' + kw['tree_calc']] + ['call:' + c for c in log])
+                  branch=['method:' + method, 'mode:' + kw['mode'], 'tree:' + kw['tree_calc']] + ['call:' + c.split('(')[0] for c in log])
         if e:
             fails.append((seqs, method, kw, log, e))
             continue
